@@ -42,6 +42,11 @@ def _snapshot_views(proc):
             'raw_inputs': _plain(proc.raw_inputs) if proc.raw_inputs is not None else None}
 
 
+class _PauseOnWaiting(plumpy.ProcessListener):
+    def on_process_waiting(self, process):
+        process.pause('paused by an observer of the wait')
+
+
 def run_with_crashes(make_proc, crash_points, resume_for_wait, transport=None, budget=4000, max_restores=64, persister=None, lag=0, resume_mode='plain',
                      exit_crashes=(), other_loop_current=False, paused_crashes=(), save_every=False):
     """make_proc(loop) -> process.  resume_for_wait(j) -> list of resume args for the j-th wait (0-based).
@@ -153,6 +158,9 @@ def run_with_crashes(make_proc, crash_points, resume_for_wait, transport=None, b
                         log.append(['checkpoint', idx, to, len(p.trace)])
 
             rec.hooks['entered'] = entered
+            if resume_mode == 'pause-on-waiting' and snapshot[0] is None:
+                # an observer pauses the process whenever it is told that the process waits (the loop below plays it, then resumes)
+                proc.add_process_listener(_PauseOnWaiting())
 
             def paused_hook(p):
                 # "persist when paused": the checkpoint is written from the paused hook of a pause that was requested while the step
